@@ -128,91 +128,16 @@ func stripDigits(s string) string {
 	return out
 }
 
-func runCheck(prop, tier string) int {
-	start := time.Now()
-	spec := propSpecs[prop]
-	if spec == nil {
-		fmt.Printf("INCONCLUSIVE unknown property %s\n", prop)
-		return 2
-	}
-	seed := int64(0)
-	if s := os.Getenv("VERIF_SEED"); s != "" {
-		seed, _ = strconv.ParseInt(s, 10, 64)
-	}
-	sh, err := LoadProgram(*flagRepo, *flagHarness)
-	if err != nil {
-		// The harness does not build against the current tree (or the tree itself
-		// does not build): nothing can be decided.
-		fmt.Printf("INCONCLUSIVE property=%s cannot load /repo with harness: %v\n", prop, err)
-		writeInconclusiveEvidence(prop, tier, seed, start, "load: "+err.Error())
-		return 2
-	}
-	loadS := time.Since(start).Seconds()
-	native := NewNativeRunner(*flagRepo, *flagHarness)
-	native.race = spec.Race
-	defer native.Close()
-
-	// encoder conformance preamble
-	confN, confBad, confErr := runConformanceWith(sh, native, conformLimit(tier))
-	if confErr != nil || len(confBad) > 0 {
-		fmt.Printf("INCONCLUSIVE property=%s encoder conformance failed: err=%v mismatches=%d\n", prop, confErr, len(confBad))
-		for i, b := range confBad {
-			if i < 5 {
-				fmt.Println("  MISMATCH", clip(b, 600))
-			}
-		}
-		writeInconclusiveEvidence(prop, tier, seed, start, fmt.Sprintf("conformance: err=%v mismatches=%d", confErr, len(confBad)))
-		return 2
-	}
-
-	units := spec.Units(tier, seed, sh)
-	for _, u := range units {
-		if sh.entry(u.Entry) == nil {
-			fmt.Printf("INCONCLUSIVE property=%s harness entry %s missing\n", prop, u.Entry)
-			return 2
-		}
-	}
-	solverKind := spec.Solver
-	if solverKind == "" {
-		solverKind = "z3"
-	}
-	if *flagSolver != "" {
-		solverKind = *flagSolver
-	}
-	timeoutMs := spec.TimeoutMs
-	if timeoutMs == 0 {
-		timeoutMs = 5000
-		if tier == "thorough" {
-			timeoutMs = 30000
-		}
-	}
-	maxSteps := spec.MaxSteps
-	if maxSteps == 0 {
-		maxSteps = 5_000_000
-		if tier == "thorough" {
-			maxSteps = 50_000_000
-		}
-	}
-	maxPaths := spec.MaxPaths
-	if maxPaths == 0 {
-		maxPaths = 20000
-		if tier == "thorough" {
-			maxPaths = 200000
-		}
-	}
-	var deadline time.Time
-	if spec.WallBudget != nil {
-		deadline = start.Add(spec.WallBudget(tier))
-	}
-
-	results := make([]*unitResult, len(units))
+// runUnits explores all paths of the given units on the worker pool with one solver back end.
+func runUnits(sh *Shared, spec *PropSpec, units []Unit, solverKind string, timeoutMs int, maxSteps int64, maxPaths int, deadline time.Time) (results []*unitResult, solverStats []SolverStats, funcSteps map[string]int64, stubs map[string]int, skippedUnits int) {
+	results = make([]*unitResult, len(units))
 	var wg sync.WaitGroup
 	var mu sync.Mutex
 	cond := sync.NewCond(&mu)
-	solverStats := make([]SolverStats, *flagWorkers)
-	funcSteps := map[string]int64{}
-	stubs := map[string]int{}
-	skippedUnits := 0
+	solverStats = make([]SolverStats, *flagWorkers)
+	funcSteps = map[string]int64{}
+	stubs = map[string]int{}
+	skippedUnits = 0
 	// Work items are single paths (unit, decision prefix): the paths of a unit are
 	// independent re-executions, so a unit with many paths is spread over all workers.
 	type workItem struct {
@@ -307,6 +232,120 @@ func runCheck(prop, tier string) int {
 		}(w)
 	}
 	wg.Wait()
+
+	return
+}
+
+func runCheck(prop, tier string) int {
+	start := time.Now()
+	spec := propSpecs[prop]
+	if spec == nil {
+		fmt.Printf("INCONCLUSIVE unknown property %s\n", prop)
+		return 2
+	}
+	seed := int64(0)
+	if s := os.Getenv("VERIF_SEED"); s != "" {
+		seed, _ = strconv.ParseInt(s, 10, 64)
+	}
+	sh, err := LoadProgram(*flagRepo, *flagHarness)
+	if err != nil {
+		// The harness does not build against the current tree (or the tree itself
+		// does not build): nothing can be decided.
+		fmt.Printf("INCONCLUSIVE property=%s cannot load /repo with harness: %v\n", prop, err)
+		writeInconclusiveEvidence(prop, tier, seed, start, "load: "+err.Error())
+		return 2
+	}
+	loadS := time.Since(start).Seconds()
+	native := NewNativeRunner(*flagRepo, *flagHarness)
+	native.race = spec.Race
+	defer native.Close()
+
+	// encoder conformance preamble
+	confN, confBad, confErr := runConformanceWith(sh, native, conformLimit(tier))
+	if confErr != nil || len(confBad) > 0 {
+		fmt.Printf("INCONCLUSIVE property=%s encoder conformance failed: err=%v mismatches=%d\n", prop, confErr, len(confBad))
+		for i, b := range confBad {
+			if i < 5 {
+				fmt.Println("  MISMATCH", clip(b, 600))
+			}
+		}
+		writeInconclusiveEvidence(prop, tier, seed, start, fmt.Sprintf("conformance: err=%v mismatches=%d", confErr, len(confBad)))
+		return 2
+	}
+
+	units := spec.Units(tier, seed, sh)
+	for _, u := range units {
+		if sh.entry(u.Entry) == nil {
+			fmt.Printf("INCONCLUSIVE property=%s harness entry %s missing\n", prop, u.Entry)
+			return 2
+		}
+	}
+	solverKind := spec.Solver
+	if solverKind == "" {
+		solverKind = "z3"
+	}
+	if *flagSolver != "" {
+		solverKind = *flagSolver
+	}
+	timeoutMs := spec.TimeoutMs
+	if timeoutMs == 0 {
+		timeoutMs = 5000
+		if tier == "thorough" {
+			timeoutMs = 30000
+		}
+	}
+	maxSteps := spec.MaxSteps
+	if maxSteps == 0 {
+		maxSteps = 5_000_000
+		if tier == "thorough" {
+			maxSteps = 50_000_000
+		}
+	}
+	maxPaths := spec.MaxPaths
+	if maxPaths == 0 {
+		maxPaths = 20000
+		if tier == "thorough" {
+			maxPaths = 200000
+		}
+	}
+	var deadline time.Time
+	if spec.WallBudget != nil {
+		deadline = start.Add(spec.WallBudget(tier))
+	}
+
+	results, solverStats, funcSteps, stubs, skippedUnits := runUnits(sh, spec, units, solverKind, timeoutMs, maxSteps, maxPaths, deadline)
+
+	// thorough: a sample of units is re-run on a second solver; the verdicts must agree
+	secondSolver, secondUnits, secondDisagree := "", 0, []string{}
+	if tier == "thorough" && len(units) > 0 {
+		secondSolver = "cvc5"
+		if strings.HasPrefix(solverKind, "cvc5") {
+			secondSolver = "z3-new"
+		}
+		step := len(units)/40 + 1
+		var sample []Unit
+		var sampleIdx []int
+		for i := 0; i < len(units); i += step {
+			if results[i] != nil && !results[i].truncated && results[i].paths <= 400 {
+				sample = append(sample, units[i])
+				sampleIdx = append(sampleIdx, i)
+			}
+		}
+		res2, _, _, _, _ := runUnits(sh, spec, sample, secondSolver, timeoutMs, maxSteps, maxPaths, time.Time{})
+		for k, r2 := range res2 {
+			r1 := results[sampleIdx[k]]
+			if r2 == nil || r1 == nil {
+				continue
+			}
+			secondUnits++
+			if r2.undecided > 0 || r1.undecided > 0 {
+				continue // an unknown on either side decides nothing
+			}
+			if r1.okPaths != r2.okPaths || len(r1.failures) != len(r2.failures) || r1.assumed != r2.assumed {
+				secondDisagree = append(secondDisagree, fmt.Sprintf("%s: %s ok/failed/assumed=%d/%d/%d vs %s %d/%d/%d", clip(r1.unit.String(), 120), solverKind, r1.okPaths, len(r1.failures), r1.assumed, secondSolver, r2.okPaths, len(r2.failures), r2.assumed))
+			}
+		}
+	}
 
 	// aggregate
 	var agg struct {
@@ -518,6 +557,10 @@ func runCheck(prop, tier string) int {
 			inconclusiveWhy = append(inconclusiveWhy, fmt.Sprintf("executor failure on %d paths: %s", n, clip(why, 200)))
 		}
 	}
+	if len(secondDisagree) > 0 {
+		inconclusive = true
+		inconclusiveWhy = append(inconclusiveWhy, fmt.Sprintf("solver disagreement on %d units, e.g. %s", len(secondDisagree), secondDisagree[0]))
+	}
 	if len(witnessMismatch) > 0 {
 		inconclusive = true
 		inconclusiveWhy = append(inconclusiveWhy, fmt.Sprintf("witness replay mismatches: %d, e.g. %s", len(witnessMismatch), clip(witnessMismatch[0], 500)))
@@ -552,6 +595,11 @@ func runCheck(prop, tier string) int {
 		"load_s":                        loadS,
 		"rule":                          spec.Rule,
 		"exhaustive":                    false,
+	}
+	if secondSolver != "" {
+		cov["second_solver"] = secondSolver
+		cov["second_solver_units_compared"] = secondUnits
+		cov["second_solver_disagreements"] = len(secondDisagree)
 	}
 	if len(inconclusiveWhy) > 0 {
 		cov["inconclusive"] = inconclusiveWhy
